@@ -8,9 +8,25 @@
      arbitrary tail ([rsrc s bs tail]); the reader's final state [src_adv s (bl bs) tail] is "exactly at the
      end of the message".  Proofs in Uper/CompatFullProofs.v over the executable model Uper/Writer.v,
      Uper/Reader.v and the reference encoder [enc] of Uper/Spec.v ([enc] is what the writer produces:
-     C01_writer_is_reference). *)
+     C01_writer_is_reference).
+   - at any depth (C05_forward_deep, C05_backward_deep, C05_sentinel_forward_deep, C05_sentinel_backward_deep):
+     schema pairs [extends_deep V1 V2] (Uper/CompatNestedProofs.v): reflexivity, the top-level steps above
+     (C05_extends_is_deep), and congruence -- a SEQUENCE/SET whose component types evolve pointwise (root
+     components and extension additions, i.e. inside open types) and which may gain additions at the same
+     node, a SEQUENCE OF whose element type evolves, a CHOICE whose alternatives evolve pointwise and which
+     may gain extension alternatives at the same node, an ENUMERATED that gains items; any nesting depth,
+     several nested types evolving at once; transitive (C05_extends_deep_trans).  Forward: the V2 reader
+     returns [pad_deep V1 V2 v] (additions absent / default at every nested position).  Backward: the V1 reader
+     returns [forget_deep V1 V2 v] (unknown additions dropped at every nested position); when that is
+     undefined the reader fails with InvalidChoiceIndex, and it is undefined only if the value, read
+     positionally against V1, contains a CHOICE alternative / ENUMERATED item V1 does not have
+     ([has_unknown V1 v]) -- an error, never a wrong value.  In both directions the reader ends exactly at
+     the end of the message.  Hypotheses beyond the property text: the descriptor constants of both versions
+     are consistent ([wf_ty], part of [extends] at top level), the C01 exclusion classes ([Known_C01]), and,
+     inside the relation, a DEFAULT component keeps its type (its default value is part of the component
+     kind and would have to change with the type; not covered).  Nothing is left _partial for nesting. *)
 From A1 Require Import Uper.Reader Uper.CompatProofs.
-From A1 Require Import Uper.Spec Uper.Proofs Uper.CompatFullProofs.
+From A1 Require Import Uper.Spec Uper.Proofs Uper.CompatFullProofs Uper.CompatNestedProofs.
 Local Open Scope N_scope.
 
 (* forward (old data, new reader): an addition beyond the transmitted presence bits is absent *)
@@ -136,6 +152,78 @@ Example C05_full_nonvacuous :
   end.
 Proof. exact nonvacuous_c05. Qed.
 
+(** * at any depth *)
+(* the top-level pairs are instances of the deep relation *)
+Theorem C05_extends_is_deep : forall V1 V2, extends V1 V2 -> extends_deep V1 V2 /\ wf_ty V1 /\ wf_ty V2.
+Proof. exact extends_is_deep. Qed.
+
+Theorem C05_extends_deep_trans : forall A B C, extends_deep A B -> extends_deep B C -> extends_deep A C.
+Proof. exact extends_deep_trans. Qed.
+
+(* forward (old data, new reader), the evolving types anywhere inside: root content unchanged, the new
+   additions absent at every nested position, the reader ending exactly at the end *)
+Theorem C05_forward_deep : forall m V1 V2 v bs s tail,
+  extends_deep V1 V2 -> wf_ty V1 -> wf_ty V2 -> wf_val V1 v -> ~ Known_C01 m V1 v ->
+  enc m V1 v = Ok bs -> rsrc s bs tail ->
+  read_ty m V2 (r_of_src s) = Ok (pad_deep V1 V2 v, r_of_src (src_adv s (bl bs) tail)).
+Proof. exact C05_forward_deep_thm. Qed.
+
+(* backward (new data, old reader): unknown additions skipped at every nested position (inside an open
+   type the outer reader repositions to the end of the window); an alternative / item V1 does not have,
+   anywhere in an encoded position, is reported as InvalidChoiceIndex -- never a value -- and that is the
+   only way the old reader fails *)
+Theorem C05_backward_deep : forall m V1 V2 v bs s tail,
+  extends_deep V1 V2 -> wf_ty V1 -> wf_ty V2 -> wf_val V2 v -> ~ Known_C01 m V2 v ->
+  enc m V2 v = Ok bs -> rsrc s bs tail ->
+  (forall v', forget_deep V1 V2 v = Some v' ->
+     read_ty m V1 (r_of_src s) = Ok (v', r_of_src (src_adv s (bl bs) tail))) /\
+  (forget_deep V1 V2 v = None ->
+     read_ty m V1 (r_of_src s) = Err E_INVALID_CHOICE /\ has_unknown V1 v) /\
+  (~ has_unknown V1 v -> exists v', forget_deep V1 V2 v = Some v').
+Proof. exact C05_backward_deep_thm. Qed.
+
+Theorem C05_sentinel_forward_deep : forall m V1 V2 v bs T x bs' s tail,
+  extends_deep V1 V2 -> wf_ty V1 -> wf_ty V2 -> wf_val V1 v -> ~ Known_C01 m V1 v -> enc m V1 v = Ok bs ->
+  wf_ty T -> wf_val T x -> ~ Known_C01 m T x -> enc m T x = Ok bs' ->
+  rsrc s (bs ++ bs') tail ->
+  exists r1, read_ty m V2 (r_of_src s) = Ok (pad_deep V1 V2 v, r1) /\
+             read_ty m T r1 = Ok (x, r_of_src (src_adv s (bl (bs ++ bs')) tail)).
+Proof. exact C05_sentinel_forward_deep_thm. Qed.
+
+Theorem C05_sentinel_backward_deep : forall m V1 V2 v v' bs T x bs' s tail,
+  extends_deep V1 V2 -> wf_ty V1 -> wf_ty V2 -> wf_val V2 v -> ~ Known_C01 m V2 v -> enc m V2 v = Ok bs ->
+  forget_deep V1 V2 v = Some v' ->
+  wf_ty T -> wf_val T x -> ~ Known_C01 m T x -> enc m T x = Ok bs' ->
+  rsrc s (bs ++ bs') tail ->
+  exists r1, read_ty m V1 (r_of_src s) = Ok (v', r1) /\
+             read_ty m T r1 = Ok (x, r_of_src (src_adv s (bl (bs ++ bs')) tail)).
+Proof. exact C05_sentinel_backward_deep_thm. Qed.
+
+(* Outer ::= SEQUENCE { hdr INTEGER(0..255), body SEQUENCE OF Inner, ..., tail Inner OPTIONAL } with
+   Inner evolving from { a BOOLEAN, ... } to { a BOOLEAN, ..., b OCTET STRING OPTIONAL }: V2 data with b
+   present inside the SEQUENCE OF and inside the open type of tail, read under V1 and followed by a
+   sentinel octet (both profiles); V1 data under V2; and an ENUMERATED that gained an item inside a
+   SEQUENCE inside a SEQUENCE OF: the new item makes the old reader fail with InvalidChoiceIndex.  The
+   hypotheses of C05_forward_deep / C05_backward_deep hold for the pairs and the values *)
+Example C05_nested_nonvacuous :
+  extends_deep exn_V1 exn_V2 /\ wf_ty exn_V1 /\ wf_ty exn_V2 /\
+  (wf_val exn_V2 exn_v2 /\ ~ Known_C01 dev_mode exn_V2 exn_v2) /\
+  (wf_val exn_V1 exn_v1 /\ ~ Known_C01 dev_mode exn_V1 exn_v1) /\
+  forget_deep exn_V1 exn_V2 exn_v2 = Some exn_v2_seen_by_V1 /\
+  compat_run dev_mode exn_V2 exn_V1 exn_v2 ex5_sentinel (VInt 165) = Some (exn_v2_seen_by_V1, VInt 165, true) /\
+  compat_run release_mode exn_V2 exn_V1 exn_v2 ex5_sentinel (VInt 165) = Some (exn_v2_seen_by_V1, VInt 165, true) /\
+  pad_deep exn_V1 exn_V2 exn_v1 = exn_v1_seen_by_V2 /\
+  compat_run dev_mode exn_V1 exn_V2 exn_v1 ex5_sentinel (VInt 165) = Some (exn_v1_seen_by_V2, VInt 165, true) /\
+  extends_deep exn_E1 exn_E2 /\ wf_ty exn_E1 /\ wf_ty exn_E2 /\
+  (wf_val exn_E2 exn_e_unknown /\ ~ Known_C01 dev_mode exn_E2 exn_e_unknown) /\
+  forget_deep exn_E1 exn_E2 exn_e_unknown = None /\ has_unknown exn_E1 exn_e_unknown /\
+  forget_deep exn_E1 exn_E2 exn_e_known = Some exn_e_known /\
+  match enc dev_mode exn_E2 exn_e_unknown with
+  | Ok bs => read_ty dev_mode exn_E1 (r_of_src (src_of_bits bs (bl bs))) = Err E_INVALID_CHOICE
+  | _ => False
+  end.
+Proof. exact nonvacuous_c05_nested. Qed.
+
 Print Assumptions C05_beyond_transmitted_is_absent_partial.
 Print Assumptions C05_no_extension_is_absent_partial.
 Print Assumptions C05_skip_nothing_partial.
@@ -147,3 +235,10 @@ Print Assumptions C05_sequence_compat.
 Print Assumptions C05_sentinel_forward.
 Print Assumptions C05_sentinel_backward.
 Print Assumptions C05_full_nonvacuous.
+Print Assumptions C05_extends_is_deep.
+Print Assumptions C05_extends_deep_trans.
+Print Assumptions C05_forward_deep.
+Print Assumptions C05_backward_deep.
+Print Assumptions C05_sentinel_forward_deep.
+Print Assumptions C05_sentinel_backward_deep.
+Print Assumptions C05_nested_nonvacuous.
